@@ -50,6 +50,11 @@ def _work(task):
                 kind, r, path = dom.apply(opn, a, b)
                 exp = tuple(comb(x, y) for x, y in zip(va, vb))
                 _judge(dom, fails, opn, la, lb, a, b, kind, r, path, exp)
+                if kind == "ok" and isinstance(r, AObj) and r.cls in dom.classes:
+                    # depth 2: the property covers "previous results of these operators" as operands — complement the result itself
+                    n += 1
+                    k2, r2, p2 = dom.apply("~", r)
+                    _judge(dom, fails, "~", f"({la} {opn} {lb})", None, r, None, k2, r2, p2, tuple(not x for x in exp), depth2=True)
                 if va != vb and va not in (dom.full, dom.none) and vb not in (dom.full, dom.none):
                     nontriv += 1
                     if len(samples) < 2 and (i * 7 + len(samples)) % 5 == 0 and kind == "ok":
@@ -57,7 +62,7 @@ def _work(task):
     return {"n": n, "nontriv": nontriv, "fails": fails, "samples": samples, "funcs": sorted(dom.it.funcs_seen)}
 
 
-def _judge(dom, fails, opn, la, lb, a, b, kind, r, path, exp):
+def _judge(dom, fails, opn, la, lb, a, b, kind, r, path, exp, depth2=False):
     disp = dom.dispatch_name(opn, a, b)
     expr = f"~{la}" if opn == "~" else f"{la} {opn} {lb}"
     if kind == "raise":
